@@ -77,6 +77,20 @@ func explore(env *vm.Env, run HarnessRun, workers int, cross string, timeout tim
 	t0 := time.Now()
 	env.Params = run.Params
 	var wg sync.WaitGroup
+	if os.Getenv("VERIF_PROGRESS") != "" {
+		go func() {
+			for {
+				time.Sleep(10 * time.Second)
+				ex.mu.Lock()
+				if ex.stop || (len(ex.stack) == 0 && ex.active == 0) {
+					ex.mu.Unlock()
+					return
+				}
+				fmt.Fprintf(os.Stderr, "progress: paths=%d stack=%d active=%d status=%v\n", ex.res.Paths, len(ex.stack), ex.active, ex.res.ByStatus)
+				ex.mu.Unlock()
+			}
+		}()
+	}
 	for w := 0; w < workers; w++ {
 		wg.Add(1)
 		go func(id int) {
